@@ -60,6 +60,10 @@ type Expect struct {
 type ParserSpec struct {
 	Type   string `json:"type"`             // HP BHP DHP BDHP BUP GSAP OSAP
 	Target string `json:"target,omitempty"` // "" (Parser interface) | buffer (ParserBuffer direct) | wrap
+	// PreUse > 0 (wrap target): the parser is used directly before it is wrapped
+	// (PreUse bytes written, for even values one block parsed); the wrapper is
+	// then created without a reader and given its reader through Reset.
+	PreUse int `json:"preuse,omitempty"`
 
 	ShrinkSize int `json:"shrink,omitempty"`
 	BufferSize int `json:"buffer,omitempty"`
@@ -143,6 +147,10 @@ type WEvent struct {
 	Accept int  `json:"accept"` // bytes accepted (< len); 0 = fail without progress
 	Short  bool `json:"short,omitempty"`
 	ID     int  `json:"id"`
+	// Nil: the writer accepts 0 bytes and returns a nil error. This violates
+	// the io.Writer contract and is used by C06 only, whose premise is merely
+	// that the writer returns.
+	Nil bool `json:"nil,omitempty"`
 }
 
 // Sched is the explicit schedule of a multi world run: task i runs until it
